@@ -12,8 +12,10 @@ META = {
 META["explanation"] += " " + 'Also: iterator continuation discipline (one snapshot of node->next per visited node; iter->next is that snapshot; traversal resumes from it), bucket placement compares the cursor node, partitioned populate/remove covers the whole level on every return path.'
 META["explanation"] += " " + 'Also (round 11): a new bucket node is linked in front of resident nodes of equal reverse hash, an insertion helps unlink only nodes seen REMOVED, no table access between thread_offline() and thread_online().'
 
+
 RULES = [
     ("C05.pub", lambda c, r: lfht.rule_pub(c, r, "C05.pub")),
+    ("C05.mmapargs", lambda c, r: lfht.rule_mmapargs(c, r, "C05.mmapargs")),   # bucket memory is private anonymous memory: shared with a forked child, the child's updates rewrite the parent's chains
     ("C05.filter", lambda c, r: lfht.rule_filter(c, r, "C05.filter")),
     ("C05.size", lambda c, r: lfht.rule_grow(c, r, "C05.size")),
     ("C05.shrink", lambda c, r: lfht.rule_shrink(c, r, "C05.shrink")),
